@@ -43,11 +43,18 @@ func New(w http.ResponseWriter, r *http.Request, options ...Option) (*ResponseWr
 	accepts := r.Header.Values("Accept")
 	var nd, okJson bool
 	for _, accept := range accepts {
+		// Once both media types are accepted, the remaining media types in
+		// this header value cannot change the outcome, but they must still
+		// be well-formed.
+		var satisfied bool
 		amts := strings.Split(accept, ",")
 		for _, amt := range amts {
 			mt, _, err := mime.ParseMediaType(amt)
 			if err != nil {
 				return nil, apierror.New(errors.New("invalid Accept header"), http.StatusBadRequest)
+			}
+			if satisfied {
+				continue
 			}
 			switch mt {
 			case mediaTypeNDJson:
@@ -58,9 +65,7 @@ func New(w http.ResponseWriter, r *http.Request, options ...Option) (*ResponseWr
 				nd = !opts.preferJson
 				okJson = true
 			}
-			if nd && okJson {
-				break
-			}
+			satisfied = nd && okJson
 		}
 	}
 
